@@ -199,6 +199,14 @@ func compare(s shape, v string, benign, adv outcome) (string, string) {
 		}
 		return strings.Join(parts, " ")
 	}
+	// SQL text handed to a harness function is executed by plpgsql as it stands: a named parameter inside it is
+	// bound by nothing (the driver only rewrites @name in the statement itself), so the value it stands for does not
+	// reach PostgreSQL as a literal, an identifier or a bound parameter.
+	for i, f := range a {
+		if f.path != "" && f.tok.Kind == pglex.NamedParam {
+			return "unbound-parameter-reference", fmt.Sprintf("token %d%s is the parameter reference %s inside SQL text handed to a harness function: ...%s...", i, f.path, f.tok.Text, render(a, i))
+		}
+	}
 	n := len(a)
 	if len(b) < n {
 		n = len(b)
